@@ -164,6 +164,9 @@ func c06Gen(r *driver.Rand, thorough bool) *driver.Plan {
 	case 4:
 		p.CancelAtEnd = true
 	}
+	if !isGenerator(stage) && r.Chance(1, 8) {
+		p.SetX("late_build", 1+r.Intn(12))
+	}
 	genSched(r, p)
 	if isGenerator(stage) && (p.Policy == driver.PolLowest || p.Policy == driver.PolRunBlock) {
 		p.Budget = 300
